@@ -110,6 +110,18 @@ func RunVerify(c VerifyCase) (res Result) {
 		res.Violations = append(res.Violations, Violation{"C01", "AcceptanceSet",
 			fmt.Sprintf("Verify(key %v, hasher %s, signature class %s) = %s, the specification gives %s [sig %x seed %d]", c.Key, c.Hasher, c.Sig, got, c.Expect, sig, c.Seed)})
 	}
+	// the verdict does not depend on how the key object came about (generated, decoded, aggregated from public or from private
+	// keys with or without cached public keys, left over after a removal): every origin of the same key value
+	for variant := 0; variant < 6; variant++ {
+		pkv := w.PK(form, variant)
+		got := verdictOf(pkv.Verify(sig, m.Data, w.Hasher(hcls, "m1")))
+		res.Evals++
+		if got != c.Expect {
+			res.Violations = append(res.Violations, Violation{"C01", "AcceptanceSet",
+				fmt.Sprintf("Verify(key %v of origin %d, hasher %s, signature class %s) = %s, the specification gives %s [sig %x seed %d]", c.Key, variant, c.Hasher, c.Sig, got, c.Expect, sig, c.Seed)})
+			break
+		}
+	}
 	// Sign returns exactly the canonical encoding of sk * H(m)
 	if ks.Sign() != 0 && (hcls == "kmac" || hcls == "custom128") {
 		s2, err := w.SK(ks).Sign(m.Data, w.Hasher(hcls, "m1"))
